@@ -124,6 +124,8 @@ class Ctx:
 
     def check(self, *extra):
         t = time.time()
+        if DEADLINE and t > DEADLINE:
+            raise CaseTimeout()
         self.queries += 1
         if extra and SLICING:
             # constraint independence: the path condition is satisfiable as a whole (invariant), so only the
@@ -281,6 +283,7 @@ class Ctx:
 
 
 SLICING = True
+DEADLINE = 0
 _FV_CACHE = {}
 
 
@@ -780,9 +783,12 @@ def explore(fn, max_paths=20000, timeout_s=None, want_samples=True, expected=())
     st = dict(paths=0, infeasible=0, obligations=0, discharged=0, queries=0, solver_s=0.0,
               violations=[], inconclusive=[], samples=[], complete=False, max_decisions=0)
     old = None
+    global DEADLINE
     if timeout_s:
+        # cooperative deadline (checked before every solver call); the alarm is only a backstop for code that never reaches the solver
+        DEADLINE = time.time() + timeout_s
         old = signal.signal(signal.SIGALRM, _alarm)
-        signal.setitimer(signal.ITIMER_REAL, timeout_s)
+        signal.setitimer(signal.ITIMER_REAL, timeout_s * 1.5 + 5)
     try:
         while True:
             ctx = Ctx(decisions)
@@ -872,6 +878,7 @@ def explore(fn, max_paths=20000, timeout_s=None, want_samples=True, expected=())
         if timeout_s:
             signal.setitimer(signal.ITIMER_REAL, 0)
             signal.signal(signal.SIGALRM, old)
+        DEADLINE = 0
         CTX = None
     return st
 
